@@ -32,9 +32,16 @@ def observe(cfg, items):
             "matrix": np.asarray(ph).tolist(), "variables": [(v.id, v.bounds.as_tuple()) for v in ph.variables],
             "dpv": [int(x) for x in ph.default_prio_vector], "select_args": rec.calls}
 
+def safe_observe(cfg, items):
+    try:
+        return observe(cfg, items)
+    except BaseException as e:              # an empty configurator has no polyhedron (puan_rspy panics are BaseException)
+        return {"structure": full_dump(cfg), "raised": type(e).__name__}
+
 def oracle_case(res, base_ast, adds, items):
     cfg = build(base_ast)
     before = full_dump(cfg)
+    snapshot = safe_observe(build(base_ast), items)         # what a fresh identical original answers
     c = cfg
     for r in adds:
         c = c.add(build(r))
@@ -49,6 +56,19 @@ def oracle_case(res, base_ast, adds, items):
     for k in a:
         if a[k] != d[k]:
             return f"add-chain and direct construction differ in {k}: {str(a[k])[:300]} vs {str(d[k])[:300]}"
+    # the original must still answer like a fresh identical configurator AFTER the extended one was observed
+    # (add() shares the rule objects with the original)
+    now = safe_observe(cfg, items)
+    for k in snapshot:
+        if now.get(k) != snapshot[k]:
+            return f"the original configurator changed in {k} after the extended one was built and observed: {str(snapshot[k])[:300]} -> {str(now.get(k))[:300]}"
+    # and extending the original again still equals direct construction
+    if adds:
+        again, direct1 = cfg.add(build(adds[0])), build({"k": "Stingy", "ch": base_ast["ch"] + adds[:1], "id": cfg.id})
+        a1, d1 = safe_observe(again, items), safe_observe(direct1, items)
+        for k in a1:
+            if a1[k] != d1.get(k):
+                return f"a second add() on the original differs from direct construction in {k}: {str(a1[k])[:300]} vs {str(d1.get(k))[:300]}"
     return None
 
 def run(res, tier, seed):
@@ -61,6 +81,17 @@ def run(res, tier, seed):
         base = g.config()
         nadd = rng.randint(1, 3)
         adds = [g.rule(force_id=rng.random() < 0.7) for _ in range(nadd)]
+        if rng.random() < 0.25 and len(g.items) >= 4:
+            # a defaulted rule whose non-default branch Any(rest) also occurs, untagged and with the same generated id,
+            # inside a rule of the other configurator (add() shares rule objects between the two)
+            its = rng.sample(g.items, rng.randint(3, 4)); d0, rest = its[0], its[1:]
+            plain = {"k": "Imply", "ch": [g.leaf(rng.choice(g.items)), {"k": "Any", "ch": [g.leaf(i) for i in rest], "id": None}], "id": g.fresh(True)}
+            dflt = {"k": rng.choice(["CcAny", "CcXor"]), "ch": [g.leaf(i) for i in its], "default": [d0], "id": g.fresh(True)}
+            if rng.random() < 0.5:
+                base["ch"].append(plain); adds.insert(0, dflt)
+            else:
+                base["ch"].append(dflt); adds.insert(0, plain)
+            nadd = len(adds); res.count("untagged_twin_across_add")
         try:
             cfg0 = build(base)
             ids0 = {p.id for p in cfg0.propositions}
